@@ -2191,7 +2191,7 @@ class EdgeQLSourceGenerator(codegen.SourceGenerator):
                 op_str = op
                 if types:
                     op_str += f'({",".join(types)})'
-                self.write(f'{op_str!r}', ';')
+                self.write(edgeql_quote.quote_literal(op_str), ';')
             if node.code.from_function:
                 from_clause = f'USING {node.code.language} FUNCTION '
                 self._write_keywords(from_clause)
@@ -2199,7 +2199,7 @@ class EdgeQLSourceGenerator(codegen.SourceGenerator):
                 op_str = op
                 if types:
                     op_str += f'({",".join(types)})'
-                self.write(f'{op_str!r}', ';')
+                self.write(edgeql_quote.quote_literal(op_str), ';')
             if node.code.from_expr:
                 from_clause = f'USING {node.code.language} EXPRESSION'
                 self._write_keywords(from_clause, ';')
@@ -2274,7 +2274,7 @@ class EdgeQLSourceGenerator(codegen.SourceGenerator):
         if node.code.from_function:
             from_clause = f'USING {node.code.language} FUNCTION '
             self._write_keywords(from_clause)
-            self.write(f'{node.code.from_function!r}')
+            self.write(edgeql_quote.quote_literal(node.code.from_function))
         elif node.code.language is qlast.Language.EdgeQL:
             if node.nativecode:
                 self._write_keywords('USING')
@@ -2361,7 +2361,7 @@ class EdgeQLSourceGenerator(codegen.SourceGenerator):
 
             if node.code.from_function:
                 from_clause += 'FUNCTION'
-                code = f'{node.code.from_function!r}'
+                code = edgeql_quote.quote_literal(node.code.from_function)
             elif node.code.from_cast:
                 from_clause += 'CAST'
             elif node.code.from_expr:
